@@ -19,6 +19,7 @@ func cacheCmd(args []string) int {
 	fs := flag.NewFlagSet("cache", flag.ExitOnError)
 	scfile := fs.String("scenarios", "", "scenario file (JSON lines)")
 	out := fs.String("out", "cache.ndjson", "trace output")
+	conc := fs.Bool("conc", false, "scenarios of HistoryConc.tla (a query while the recorder ends a run) instead of FileCache.tla")
 	fs.Parse(args)
 	log.SetOutput(io.Discard)
 	f, err := os.Open(*scfile)
@@ -27,10 +28,20 @@ func cacheCmd(args []string) int {
 		return 2
 	}
 	var scs []rig.CacheScenario
+	var ccs []rig.ConcScenario
 	s := bufio.NewScanner(f)
 	s.Buffer(make([]byte, 1<<20), 1<<26)
 	for s.Scan() {
 		if len(s.Bytes()) == 0 {
+			continue
+		}
+		if *conc {
+			var cc rig.ConcScenario
+			if err := json.Unmarshal(s.Bytes(), &cc); err != nil {
+				fmt.Fprintln(os.Stderr, "INFRA", err)
+				return 2
+			}
+			ccs = append(ccs, cc)
 			continue
 		}
 		var sc rig.CacheScenario
@@ -62,7 +73,12 @@ func cacheCmd(args []string) int {
 			infra++
 		}
 	}
+	for _, cc := range ccs {
+		if err := rig.RunConc(cc, base, func(e rig.Ev) { enc.Encode(e); n++ }); err != nil {
+			infra++
+		}
+	}
 	bw.Flush()
-	fmt.Printf("{\"scenarios\": %d, \"events\": %d, \"infra\": %d}\n", len(scs), n, infra)
+	fmt.Printf("{\"scenarios\": %d, \"events\": %d, \"infra\": %d}\n", len(scs)+len(ccs), n, infra)
 	return 0
 }
